@@ -71,6 +71,7 @@ impl Family for C09Family {
             real: &["passkey-client extensions/prf.rs (input validation, salt derivation)", "passkey-authenticator extensions/hmac_secret.rs", "Authenticator::{make_credential,get_assertion}", "Client::{register,authenticate}"],
             stubs: &["executor", "SimStore seam + reference store", "SimUser", "seeded RNG behind the hook"],
             crash_isolated: false,
+            fresh_thread: true,
         }
     }
 
@@ -214,7 +215,12 @@ impl Family for C09Family {
                             }
                             3 => {
                                 s.allow = Some(vec![IdRef::NthOfRp(0)]);
-                                p.by_cred = Some(vec![(KeyRef::Cred(IdRef::Unknown(r.bytes(20))), v)]);
+                                p.by_cred = Some(if r.bool() {
+                                    vec![(KeyRef::Cred(IdRef::Unknown(r.bytes(20))), v)]
+                                } else {
+                                    // one listed key next to the unlisted one
+                                    vec![(KeyRef::Cred(IdRef::NthOfRp(0)), v.clone()), (KeyRef::Cred(IdRef::Unknown(r.bytes(20))), v)]
+                                });
                             }
                             _ => {
                                 s.allow = Some(vec![IdRef::NthOfRp(0)]);
